@@ -107,7 +107,7 @@ func (cp *CertificatePoliciesData) MarshalJSON() ([]byte, error) {
 			uNoticeData := UserNoticeData{}
 			uNoticeData.ExplicitText = explicit_text
 			noticeRef := NoticeReference{}
-			if len(cp.NoticeRefOrganization[idx]) > 0 {
+			if idx2 < len(cp.NoticeRefOrganization[idx]) && idx2 < len(cp.NoticeRefNumbers[idx]) {
 				organization := cp.NoticeRefOrganization[idx][idx2]
 				noticeRef.Organization = organization
 				noticeRef.NoticeNumbers = cp.NoticeRefNumbers[idx][idx2]
